@@ -13,6 +13,7 @@ import collections
 from .universes import new_graph, apply_op
 from .model import Model
 from .observe import canon_impl, digest
+from .observe import snapshot as observe_snapshot
 from . import common
 
 LEGIT = ('ok', 'ValueError', 'NetworkXError')
@@ -81,7 +82,8 @@ class Spec:
         return [], {}, {}
 
     # True when on_state only issues read-only queries on G: the engine then requires the structural state of G to be
-    # the same before and after the oracle ran (a query that writes — setdefault, a cache primed wrongly — is a defect)
+    # answer the same queries identically before and after the oracle ran (a query that writes — e.g. setdefault on the
+    # snapshot table — is a defect; a correctly maintained memo is not, so the comparison is observational)
     pure_queries = False
 
     def expand(self, conf, hist, G, M, outs):
@@ -132,15 +134,19 @@ def _phase_b(chunk):
         try:
             G, M, outs = execute(conf, hist)
             try:
-                before = canon_impl(G) if spec.pure_queries else None
+                before = observe_snapshot(G, conf) if spec.pure_queries else None
                 viols, cnt, sets = spec.on_state(conf, hist, G, M)
                 vj = [v.to_json() for v in viols]
-                if spec.pure_queries and canon_impl(G) != before:
-                    a, b = dict(before), dict(canon_impl(G))
-                    vj.append({'property': spec.prop, 'sub': 'purity', 'sig': {'kind': 'read-only-queries-changed-the-graph',
-                               'attributes': sorted(k for k in set(a) | set(b) if a.get(k) != b.get(k)), 'cls': conf['cls']},
-                               'case': {'conf': conf, 'history': [list(map(lambda x: list(x) if isinstance(x, tuple) else x, op)) for op in hist]},
-                               'detail': {'changed attributes': sorted(k for k in set(a) | set(b) if a.get(k) != b.get(k))}})
+                if spec.pure_queries:
+                    # observational, not structural: a correctly maintained memo may legitimately appear in G.__dict__
+                    after = observe_snapshot(G, conf)
+                    diff = [k for k in before if before[k] != after.get(k)]
+                    if diff:
+                        vj.append({'property': spec.prop, 'sub': 'purity', 'sig': {'kind': 'read-only-queries-changed-what-the-graph-answers',
+                                   'components': diff, 'cls': conf['cls']},
+                                   'case': {'conf': conf, 'history': [list(map(lambda x: list(x) if isinstance(x, tuple) else x, op)) for op in hist]},
+                                   'detail': {'differs in': diff, 'before': {d: repr(before[d])[:200] for d in diff},
+                                              'after': {d: repr(after[d])[:200] for d in diff}}})
             except ExecTimeout:
                 raise
             except Exception as ex:
